@@ -154,9 +154,12 @@ class Scn:
             builtins._xv_draw_a = builtins._xv_draw_b = 100
             crop.sow_samples(self.nsamples, verbosity=0)
         else:
-            # (one scenario sows in a shuffled order)
+            # (one scenario sows in an order shuffled with seed 3)
+            # (two more with shuffle=True: re-running the sow script gives
+            # the same order again)
             crop.sow_combos(self.combos, verbosity=0,
-                            shuffle=3 if self.name == "raw-nb4" else False)
+                            shuffle=3 if self.name == "raw-nb4" else
+                            self.name in ("raw-bs4", "runner"))
 
     def seed_earlier(self, d, far=None):
         far = far if far is not None else self.farmer(d)
